@@ -128,6 +128,9 @@ def expected_reader(streams, qs=(), ids=()):
     out = []
     allid = sorted(s["id"] for s in streams)
     out.append("N %d %d %d %d" % (len(streams), len(streams), allid[0], allid[-1]))
+    firsts = [p0[0] * 10 ** 9 + p0[1] for p0 in (s["pk"][0] for s in streams)]
+    lasts = [p0[0] * 10 ** 9 + p0[1] for p0 in (s["pk"][-1] for s in streams)]
+    out.append("X %d %d %d %d" % (min(firsts), max(firsts), min(lasts), max(lasts)))
     out.append("IDS" + "".join(" %d" % i for i in allid))
     src = {}
     for s in streams:
